@@ -82,9 +82,10 @@ type Opaque struct{ Why string }
 
 // MapIter is the state of a range-over-map/string.
 type MapIter struct {
-	M   *MapObj
-	S   *Str
-	Pos int
+	M    *MapObj
+	Keys []Value // snapshot of the keys when the range started
+	S    *Str
+	Pos  int
 }
 
 // BigInt is the value behind *big.Int in Int mode: a cell holding an Int term.
